@@ -4,7 +4,7 @@
    the implementation's bytes are compared with on every run. *)
 Require Import Coq.Strings.String.
 From Verif Require Import Base.Prim Base.Str Cbor.Codec Cbor.CodecFacts Cbor.DecodeSound Suit.Py Suit.PyFacts Suit.Ty Suit.Interp Suit.Tables Suit.Digest
-                          Suit.Embed Suit.Flat Suit.SpecTypes Suit.SpecEnc gen.GenTypes gen.GenSpec.
+                          Suit.Embed Suit.Flat Suit.Reparse Suit.ByteTrip Suit.SpecTypes Suit.SpecEnc gen.GenTypes gen.GenSpec.
 Open Scope Z_scope.
 
 (* 1. the grammar tables of the tool ARE the pinned grammar: which member carries which node type, every `bstr .cbor`
@@ -58,6 +58,18 @@ Print Assumptions decode_reencode_decode_stable.
 
 Example non_canonical_input_is_decoded : loads [25; 0; 5] = Some (CUint 5) /\ encode (CUint 5) = [5].
 Proof. split; vm_compute; reflexivity. Qed.
+
+(* WHOLE OUTPUT: for every type table, budget and byte-stable tree (Suit/ByteTrip.v), the bytes the encoder writes are the
+   canonical encoding (encode: definite lengths, shortest heads — head_is_shortest) of exactly ONE normal item, and reading
+   them back with the decoder gives that item: no trailing bytes, no indefinite lengths, no duplicate map keys *)
+Theorem created_bytes_are_one_canonical_item env jd f t v b :
+  bst env jd t v -> to_cbor env f t v = Ok b -> exists c, normal c /\ b = encode c /\ loads_exact b = Some c.
+Proof.
+  intros Hb Hgo. destruct (ByteTrip.encoder_output_decodes env jd f t v b Hb Hgo) as (c & Hn & _ & <-). exists c.
+  unfold ser. rewrite (unpyn_normal c Hn). split; [exact Hn|]. split; [reflexivity|]. exact (loads_exact_encode c (normal_wf c Hn)).
+Qed.
+Print Assumptions created_bytes_are_one_canonical_item.
+
 
 (* 4. node level (any table): a named member is written under its registered integer; `bstr .cbor` is exactly one
       byte-string layer *)
